@@ -81,12 +81,36 @@ static void drop_input(conn *c) {
   while (c->pend) { chunk *k = c->pend; c->pend = k->next; free(k->p); free(k); }
   c->pend_tail = NULL; free(c->arr); c->arr = NULL; c->arr_n = c->arr_off = 0;
 }
+/* ---- watchdog: a server that spins or blocks on input is reported as a hang, in bounded time ----
+ * (1) virtual: more than IO_LIMIT interposed read/recv/select calls on virtual descriptors within one
+ *     script op (the largest legitimate op, 1 MiB over WebSocket, needs a few thousand);
+ * (2) no progress: rfbProcessClientMessage returned STUCK_LIMIT times in a row without consuming a
+ *     byte, changing the connection state or invoking a callback although input is pending (the real
+ *     event loop would call it again and again: busy loop);
+ * (3) real time: alarm() per op as a last resort (generous: the machine may be heavily loaded). */
+#include <signal.h>
+#define IO_LIMIT 2000000L
+#define STUCK_LIMIT 4
+#define OP_SECONDS 300
+static long io_calls, progress_ctr;
+static const char *cur_op = "";
+static void die_hang(const char *why) {
+  char msg[256];
+  int k = snprintf(msg, sizeof msg, "hang: %s during op `%.100s`\n", why, cur_op);
+  fflush(stdout);
+  if (write(1, msg, (size_t)k) < 0 || write(2, msg, (size_t)k) < 0) { }
+  _exit(3);
+}
+static void on_alarm(int sig) { (void)sig; die_hang("no result within the real-time limit (server blocked or spinning)"); }
+static void io_tick(void) { if (++io_calls > IO_LIMIT) die_hang("server spins on the connection (millions of read/select calls)"); }
+
 static ssize_t vread(conn *c, void *buf, size_t len, int peek) {
   size_t n = avail(c);
+  io_tick();
   if (n == 0) { if (c->eof) return 0; errno = EAGAIN; return -1; }
   if (n > len) n = len;
   memcpy(buf, c->arr + c->arr_off, n);
-  if (!peek) c->arr_off += n;
+  if (!peek) { c->arr_off += n; progress_ctr++; }
   return (ssize_t)n;
 }
 ssize_t read(int fd, void *buf, size_t len) {
@@ -104,6 +128,7 @@ int select(int nfds, fd_set *r, fd_set *w, fd_set *e, struct timeval *tv) {
   init_real();
   if (r) for (fd = 0; fd < nfds && fd < MAXFD; fd++) if (FD_ISSET(fd, r) && vfd[fd]) virt = 1;
   if (!virt) return real_select(nfds, r, w, e, tv);
+  io_tick();
   for (fd = 0; fd < nfds && fd < MAXFD; fd++) {
     conn *c;
     if (!FD_ISSET(fd, r)) continue;
@@ -132,9 +157,11 @@ int gettimeofday(struct timeval *tv, void *tz) {
 /* ------------------------------------------------------------------ callbacks = observations */
 static int idof(rfbClientPtr cl) { conn *c = (conn *)cl->clientData; return c ? c->id : -1; }
 static void cb_kbd(rfbBool down, rfbKeySym key, rfbClientPtr cl) {
+  progress_ctr++;
   printf("kbd c%d %u %lu\n", idof(cl), (unsigned)(unsigned char)down, (unsigned long)key);
 }
 static void cb_ptr(int mask, int x, int y, rfbClientPtr cl) {
+  progress_ctr++;
   printf("ptr c%d %d %d %d\n", idof(cl), mask, x, y);
   rfbDefaultPtrAddEvent(mask, x, y, cl);      /* the library's own cursor bookkeeping runs too */
 }
@@ -215,7 +242,7 @@ static unsigned char *ws_frame(conn *c, const unsigned char *p, size_t n, size_t
 }
 /* queue `n` bytes for connection c in the given segmentation, then let the server consume them */
 static void deliver(conn *c, const unsigned char *p, size_t n, const char *cuts, int one) {
-  size_t prev = 0;
+  size_t prev = 0; int stuck = 0;
   const char *s = cuts;
   vh_buf all = {0};
   for (;;) {
@@ -238,7 +265,13 @@ static void deliver(conn *c, const unsigned char *p, size_t n, const char *cuts,
   while (is_open(c)) {
     while (avail(c) == 0 && c->pend) arrive(c);      /* the event loop sleeps until a segment with data arrives */
     if (avail(c) == 0 && !(c->cl->wsctx && webSocketsHasDataInBuffer(c->cl))) break;
-    rfbProcessClientMessage(c->cl);
+    {
+      long before = progress_ctr; int st = c->cl->state; rfbClientPtr cl0 = c->cl;
+      rfbProcessClientMessage(c->cl);
+      if (is_open(c) && c->cl == cl0 && !c->cl->wsctx && progress_ctr == before && c->cl->state == st) {
+        if (++stuck >= STUCK_LIMIT) die_hang("rfbProcessClientMessage does not consume the pending input (busy loop)");
+      } else stuck = 0;
+    }
     drain(c);
   }
   if (!is_open(c)) drop_input(c);
@@ -273,8 +306,13 @@ static char *pws[] = { (char *)"full", (char *)"view", NULL };
 int main(void) {
   char *line, *tok[16];
   init_real();
+  signal(SIGALRM, on_alarm);
   while ((line = vh_readline())) {
-    int n = vh_split(line, tok, 16);
+    static char opcopy[128];
+    int n;
+    strncpy(opcopy, line, sizeof opcopy - 1); cur_op = opcopy;
+    io_calls = 0; alarm(OP_SECONDS);
+    n = vh_split(line, tok, 16);
     if (n == 0 || tok[0][0] == '#') continue;
     if (!strcmp(tok[0], "screen") && n == 6 && !scr) {
       int w = atoi(tok[1]), h = atoi(tok[2]);
